@@ -1,2 +1,593 @@
-// Package c15 decides C15 (see DESIGN.md section 4). Not built yet.
+// Package c15 decides C15 (maps use Go key equality for every comparable key
+// type).
+//
+// spec/GoMap.tla is the reference: Go's == on tagged key values, hashability,
+// and the map operations on a set of entries.  spec/GoMapScen.tla lets TLC
+// enumerate key types (to depth 3), adversarial value pools and operation
+// histories, evaluates the reference along every history (checking on every
+// intermediate state that the entry-set model refines the map-over-equivalence-
+// classes model) and writes the predicted result of every step; for range
+// steps the prediction is a set of alternatives (first / must / may visit).
+// This package renders the histories as table-driven Go programs, runs them
+// compiled by the compiler under test (Node) and by the reference toolchain
+// (specification guard), and validates every observed step against the
+// prediction.
 package c15
+
+import (
+	"encoding/json"
+	"fmt"
+	"math/rand"
+	"os"
+	"path/filepath"
+	"sort"
+	"strconv"
+	"strings"
+	"time"
+
+	"verif/core"
+	"verif/gjs"
+	"verif/reg"
+	"verif/tlcx"
+)
+
+func init() { reg.Register("C15", "model_checking", Run) }
+
+type alt struct {
+	Mode  string
+	First []int
+	Must  [][]int
+	May   [][]int
+	End   string
+}
+
+// decodeRes decodes one predicted step result.
+func decodeRes(raw json.RawMessage) (tag string, nums []int, alts []alt, err error) {
+	var a []json.RawMessage
+	if err = json.Unmarshal(raw, &a); err != nil {
+		return
+	}
+	if err = json.Unmarshal(a[0], &tag); err != nil {
+		return
+	}
+	if tag != "R" {
+		for _, x := range a[1:] {
+			var n int
+			if err = json.Unmarshal(x, &n); err != nil {
+				return
+			}
+			nums = append(nums, n)
+		}
+		return
+	}
+	var ra [][]json.RawMessage
+	if err = json.Unmarshal(a[1], &ra); err != nil {
+		return
+	}
+	for _, x := range ra {
+		var al alt
+		json.Unmarshal(x[0], &al.Mode)
+		json.Unmarshal(x[1], &al.First)
+		json.Unmarshal(x[2], &al.Must)
+		json.Unmarshal(x[3], &al.May)
+		json.Unmarshal(x[4], &al.End)
+		alts = append(alts, al)
+	}
+	return
+}
+
+func pairKey(p []int) string { return fmt.Sprint(p[0], ",", p[1]) }
+
+// accepts says whether the visited sequence is one the alternative allows.
+func (al *alt) accepts(vis [][]int, end string) bool {
+	if (al.End == "e") != (end == "e") || (al.End == "P" && end != "P r") {
+		return false
+	}
+	rest := vis
+	if al.Mode == "first" {
+		if len(vis) == 0 || vis[0][0] != al.First[0] || vis[0][1] != al.First[1] {
+			return false
+		}
+		rest = vis[1:]
+	}
+	bag := map[string]int{}
+	for _, p := range rest {
+		bag[pairKey(p)]++
+	}
+	for _, p := range al.Must {
+		k := pairKey(p)
+		if bag[k] == 0 {
+			return false // an entry present throughout was not visited
+		}
+		bag[k]--
+	}
+	for _, p := range al.May {
+		k := pairKey(p)
+		if bag[k] > 0 {
+			bag[k]--
+		}
+	}
+	for _, n := range bag {
+		if n > 0 {
+			return false // visited twice, deleted before reached, or never existed
+		}
+	}
+	return true
+}
+
+// verdict of one history on one observation
+type outcome struct {
+	ok       bool
+	step     int    // 0-based index of the first rejected step
+	want     string // prediction at that step
+	got      string // observation at that step
+	nonRTErr bool   // a panic was predicted and observed, but it is not a runtime.Error
+}
+
+// validate walks the lines one history printed and compares them step by step
+// with the prediction.
+func validate(h *hist, lines []string) outcome {
+	p := 0
+	for si := range h.Ops {
+		tag, nums, alts, err := decodeRes(h.Res[si])
+		if err != nil {
+			return outcome{step: si, want: string(h.Res[si]), got: "undecodable prediction: " + err.Error()}
+		}
+		if tag != "R" {
+			var want string
+			switch tag {
+			case "n":
+				want = "n"
+			case "P":
+				want = "P r"
+			case "g":
+				want = fmt.Sprintf("g %d", nums[0])
+			case "o":
+				want = fmt.Sprintf("o %d %v", nums[0], nums[1] == 1)
+			case "l":
+				want = fmt.Sprintf("l %d", nums[0])
+			}
+			got := "<no output>"
+			if p < len(lines) {
+				got = lines[p]
+				p++
+			}
+			if got != want {
+				return outcome{step: si, want: want, got: got, nonRTErr: want == "P r" && got == "P x"}
+			}
+			continue
+		}
+		var vis [][]int
+		end := "<no output>"
+		for p < len(lines) {
+			l := lines[p]
+			p++
+			if strings.HasPrefix(l, "r ") {
+				f := strings.Fields(l)
+				if len(f) == 3 {
+					a, e1 := strconv.Atoi(f[1])
+					b, e2 := strconv.Atoi(f[2])
+					if e1 == nil && e2 == nil {
+						vis = append(vis, []int{a + 1, b}) // the program prints 0-based classes, -1 for NaN-like keys
+						continue
+					}
+				}
+			}
+			end = l
+			break
+		}
+		okAny := false
+		for i := range alts {
+			if alts[i].accepts(vis, end) {
+				okAny = true
+				break
+			}
+		}
+		if !okAny {
+			pe := false
+			for i := range alts {
+				if alts[i].End == "P" && end == "P x" {
+					pe = true
+				}
+			}
+			return outcome{step: si, want: string(h.Res[si]), got: fmt.Sprintf("visited %v end %q", vis, end), nonRTErr: pe}
+		}
+	}
+	if p != len(lines) {
+		return outcome{step: len(h.Ops) - 1, want: "<end of history>", got: "extra output: " + strings.Join(lines[p:], " | ")}
+	}
+	return outcome{ok: true}
+}
+
+// splitHistories cuts program output at the "H <type> <n>" markers.
+func splitHistories(lines []string) map[[2]int][]string {
+	out := map[[2]int][]string{}
+	var cur [2]int
+	have := false
+	for _, l := range lines {
+		if strings.HasPrefix(l, "H ") {
+			f := strings.Fields(l)
+			if len(f) == 3 {
+				a, e1 := strconv.Atoi(f[1])
+				b, e2 := strconv.Atoi(f[2])
+				if e1 == nil && e2 == nil {
+					cur = [2]int{a, b}
+					have = true
+					out[cur] = []string{}
+					continue
+				}
+			}
+		}
+		if have {
+			out[cur] = append(out[cur], l)
+		}
+	}
+	return out
+}
+
+type params struct {
+	Out     string   `json:"out"`
+	PoolCap int      `json:"poolCap"`
+	ElemCap int      `json:"elemCap"`
+	PairCap int      `json:"pairCap"`
+	L       int      `json:"L"`
+	NSim    int      `json:"nsim"`
+	TypeSel [][]int  `json:"typeSel"`
+	PoolSel []int    `json:"poolSel"`
+	SimSel  [][]int  `json:"simSel"`
+	Fams    []string `json:"fams"`
+}
+
+func makeParams(c *core.Ctx) params {
+	rng := rand.New(rand.NewSource(c.Seed))
+	p := params{Out: "scen", PoolCap: c.Pick(36, 64), ElemCap: c.Pick(4, 6), PairCap: c.Pick(6, 9), L: c.Pick(4, 6),
+		NSim: c.Pick(24, 300), Fams: []string{"pairs", "dump", "sim", "laws"}}
+	for i := 0; i < c.Pick(12, 60); i++ {
+		v := make([]int, 7)
+		for j := range v {
+			v[j] = rng.Intn(1000000)
+		}
+		p.TypeSel = append(p.TypeSel, v)
+	}
+	for i := 0; i < 512; i++ {
+		p.PoolSel = append(p.PoolSel, rng.Intn(1000000))
+	}
+	for i := 0; i < p.NSim; i++ {
+		v := make([]int, p.L+1)
+		for j := range v {
+			v[j] = rng.Intn(1000000)
+		}
+		p.SimSel = append(p.SimSel, v)
+	}
+	return p
+}
+
+// loadScenarios reads the catalog and the histories TLC wrote.
+func loadScenarios(dir, out string) ([]catEntry, map[int][]*hist, int, error) {
+	var cat []catEntry
+	b, err := os.ReadFile(filepath.Join(dir, out+"_catalog.json"))
+	if err != nil {
+		return nil, nil, 0, err
+	}
+	if err := json.Unmarshal(b, &cat); err != nil {
+		return nil, nil, 0, fmt.Errorf("catalog: %v", err)
+	}
+	files, _ := filepath.Glob(filepath.Join(dir, out+".*.ndjson"))
+	sort.Strings(files)
+	hists := map[int][]*hist{}
+	total := 0
+	for _, f := range files {
+		err := tlcx.ReadNDJSON(f, func(raw json.RawMessage) error {
+			var inner string
+			if err := json.Unmarshal(raw, &inner); err != nil {
+				return err
+			}
+			var rec struct {
+				Ty   int               `json:"ty"`
+				Fam  string            `json:"fam"`
+				Init string            `json:"init"`
+				Ops  [][]any           `json:"ops"`
+				Res  []json.RawMessage `json:"res"`
+			}
+			if err := json.Unmarshal([]byte(inner), &rec); err != nil {
+				return err
+			}
+			h := &hist{Ty: rec.Ty, Fam: rec.Fam, Init: rec.Init, Res: rec.Res, Raw: inner}
+			for _, o := range rec.Ops {
+				h.Ops = append(h.Ops, opT{Kind: str(o[0]), Idx: num(o[1]), Val: num(o[2])})
+			}
+			if len(h.Ops) != len(h.Res) {
+				return fmt.Errorf("history with %d ops and %d results", len(h.Ops), len(h.Res))
+			}
+			h.seq = len(hists[h.Ty])
+			hists[h.Ty] = append(hists[h.Ty], h)
+			total++
+			return nil
+		})
+		if err != nil {
+			return nil, nil, 0, fmt.Errorf("%s: %v", f, err)
+		}
+	}
+	return cat, hists, total, nil
+}
+
+// Run is the C15 check.
+func Run(c *core.Ctx, pool *gjs.Pool) {
+	c.Assumef("keys are taken from per-type pools of symbolic values (GoMapScen.tla); equality of pool members is decided by GoMap!KeyEq, the native toolchain guards every history")
+	c.Assumef("map values are int32; value aliasing is C07's subject")
+	c.Assumef("range order is not predicted: the observed bag of visited (key class, value) pairs must fit one alternative (first/must/may) of the specification")
+	if rp := os.Getenv("VERIF_REPLAY"); rp != "" {
+		replay(c, pool, rp)
+		return
+	}
+	p := makeParams(c)
+	pj, _ := json.Marshal(p)
+	cfg := "SPECIFICATION Spec\nINVARIANT SpecOK\nINVARIANT Emit\nCHECK_DEADLOCK FALSE\n"
+	r, err := tlcx.Run(c, tlcx.Opts{Module: "GoMapScen", Cfg: cfg, Workers: 8, Timeout: 40 * time.Minute,
+		Files: map[string]string{"c15_params.json": string(pj)}, HeapMB: 8192})
+	if !tlcx.MustComplete(c, r, err, "GoMapScen") {
+		return
+	}
+	c.Phase("tlc")
+	c.Set("checker_cmd", "tlc GoMapScen (INVARIANT SpecOK: EqLaws on every pool, AbsOK/ResOK on every intermediate map state; INVARIANT Emit)")
+	cat, hists, total, err := loadScenarios(r.Dir, p.Out)
+	if err != nil {
+		c.Infra(fmt.Errorf("decode scenarios: %v", err))
+		return
+	}
+	if os.Getenv("VERIF_C15_CORRUPT") == "pred" {
+		// sensitivity demonstration: falsify one predicted result (len + 1 in the
+		// first history that has a len step); the guard then disagrees with the
+		// specification and the history is counted in spec_guard_discards
+		corruptOne(hists)
+	}
+	c.Set("key_types", len(cat))
+	c.Set("evaluations", total)
+	c.Set("exhaustive", false)
+	c.Set("rule", "TLC enumerates the catalog of key types (all leaf kinds, named/array/struct versions, special shapes, seeded depth-3 types) with value pools and, per type, the families pairs (all ordered pairs of the selected pool indices x 2 templates, exhaustive), dump (literal of the whole pool) and sim (VERIF_SEED-selected operation sequences); a case is one history of one key type; distinct = distinct (type, init, ops); non-trivial = every history (each performs at least one keyed map operation or a range over a non-empty literal)")
+	runAll(c, pool, cat, hists, total)
+}
+
+func corruptOne(hists map[int][]*hist) {
+	var tis []int
+	for ti := range hists {
+		tis = append(tis, ti)
+	}
+	sort.Ints(tis)
+	for _, ti := range tis {
+		for _, h := range hists[ti] {
+			for si, o := range h.Ops {
+				if o.Kind == "len" {
+					_, nums, _, _ := decodeRes(h.Res[si])
+					h.Res[si] = json.RawMessage(fmt.Sprintf(`["l",%d]`, nums[0]+1))
+					return
+				}
+			}
+		}
+	}
+}
+
+type failure struct {
+	h    *hist
+	oc   outcome
+	keys []string
+}
+
+func runAll(c *core.Ctx, pool *gjs.Pool, cat []catEntry, hists map[int][]*hist, total int) {
+	// programs: a handful of key types each
+	var tis []int
+	for ti := range hists {
+		tis = append(tis, ti)
+	}
+	sort.Ints(tis)
+	var groups [][]int
+	var cur []int
+	n := 0
+	for _, ti := range tis {
+		if len(cur) > 0 && (len(cur) >= 8 || n+len(hists[ti]) > 4000) {
+			groups = append(groups, cur)
+			cur, n = nil, 0
+		}
+		cur = append(cur, ti)
+		n += len(hists[ti])
+	}
+	if len(cur) > 0 {
+		groups = append(groups, cur)
+	}
+	c.Set("programs", len(groups))
+	fails := make([][]failure, len(groups))
+	discards := make([]int, len(groups))
+	checked := make([]int, len(groups))
+	c.ParMap(len(groups), func(gi int) {
+		g := groups[gi]
+		prog := renderProgram(cat, g, hists)
+		b := pool.RunBoth(c.Scratch, prog, gjs.Opts{}, 5*time.Minute, true, false)
+		if b.BuildErr != nil {
+			if be, ok := b.BuildErr.(*gjs.BuildError); ok && be.Panic {
+				c.Report(core.Case{Keys: []string{"compiler_panic"}, Summary: "compiler internal error on a map program: " + be.Error(), Files: prog.ReplayFiles("prog")})
+			} else {
+				os.WriteFile(filepath.Join(os.TempDir(), "c15_failed_main.go"), []byte(prog.Files["main.go"]), 0o644)
+				c.Infra(fmt.Errorf("gopherjs build failed (program kept in %s): %v", filepath.Join(os.TempDir(), "c15_failed_main.go"), b.BuildErr))
+			}
+			return
+		}
+		if b.NativeErr != "" {
+			os.WriteFile(filepath.Join(os.TempDir(), "c15_failed_main.go"), []byte(prog.Files["main.go"]), 0o644)
+			c.Infra(fmt.Errorf("reference toolchain rejected a generated program (kept in %s): %s", filepath.Join(os.TempDir(), "c15_failed_main.go"), tlcx.Tail(b.NativeErr, 20)))
+			return
+		}
+		if b.Native.End != "exit" {
+			c.Infra(fmt.Errorf("native run ended with %s %s", b.Native.End, b.Native.Msg))
+			return
+		}
+		if os.Getenv("VERIF_C15_CORRUPT") == "obs" && gi == 0 {
+			// sensitivity demonstration: falsify one observed len result; the check must report it
+			for i, l := range b.JS.Lines {
+				if strings.HasPrefix(l, "l ") {
+					n, _ := strconv.Atoi(l[2:])
+					b.JS.Lines[i] = fmt.Sprintf("l %d", n+1)
+					break
+				}
+			}
+		}
+		js := splitHistories(b.JS.Lines)
+		nat := splitHistories(b.Native.Lines)
+		for _, ti := range g {
+			for _, h := range hists[ti] {
+				k := [2]int{ti, h.seq}
+				nl, ok := nat[k]
+				if !ok {
+					c.Infra(fmt.Errorf("native run did not print history %v", k))
+					return
+				}
+				if on := validate(h, nl); !on.ok {
+					discards[gi]++ // the guard disagrees with the specification: no verdict
+					if os.Getenv("VERIF_VERBOSE") != "" {
+						fmt.Fprintf(os.Stderr, "[C15] spec-guard discard: type %s history %s step %d: spec %s, native %s\n", canon(cat[ti-1].T), h.Raw, on.step, on.want, on.got)
+					}
+					continue
+				}
+				checked[gi]++
+				jl, ok := js[k]
+				var oj outcome
+				if !ok {
+					oj = outcome{step: 0, want: "history output", got: fmt.Sprintf("no output (program ended with %s %s)", b.JS.End, b.JS.Msg)}
+				} else {
+					oj = validate(h, jl)
+				}
+				if oj.ok {
+					continue
+				}
+				fails[gi] = append(fails[gi], failure{h: h, oc: oj, keys: classify(&cat[ti-1], h, oj)})
+			}
+		}
+	})
+	c.Phase("run")
+	nd, nc := 0, 0
+	for i := range groups {
+		nd += discards[i]
+		nc += checked[i]
+	}
+	c.Set("spec_guard_discards", nd)
+	c.Set("traces_validated_against_impl", nc)
+	if nd > 0 {
+		fmt.Printf("note: %d histories discarded because the reference toolchain disagrees with the specification\n", nd)
+	}
+	for ti, hs := range hists {
+		for _, h := range hs {
+			c.Distinct(fmt.Sprint(canon(cat[ti-1].T), cat[ti-1].Pv, h.Init, h.Ops))
+		}
+	}
+	// report: one case per (key type, classifier set), with the number of histories
+	type grp struct {
+		first failure
+		count int
+	}
+	gm := map[string]*grp{}
+	var order []string
+	for _, fs := range fails {
+		for _, f := range fs {
+			k := fmt.Sprint(f.h.Ty, "|", strings.Join(f.keys, ","))
+			g := gm[k]
+			if g == nil {
+				g = &grp{first: f}
+				gm[k] = g
+				order = append(order, k)
+			}
+			g.count++
+		}
+	}
+	sort.Strings(order)
+	for _, k := range order {
+		g := gm[k]
+		f := g.first
+		ce := &cat[f.h.Ty-1]
+		report(c, ce, f, g.count)
+	}
+	// samples
+	i := 0
+	for _, ti := range tis {
+		if i%(len(tis)/4+1) == 0 && len(hists[ti]) > 0 {
+			h := hists[ti][len(hists[ti])/2]
+			c.Sample(map[string]any{"key_type": json.RawMessage(canon(cat[ti-1].T)), "history": json.RawMessage(h.Raw)})
+		}
+		i++
+	}
+}
+
+func describe(ce *catEntry, h *hist) string {
+	r := newRenderer()
+	te := r.typeExpr(ce.T)
+	var ops []string
+	for _, o := range h.Ops {
+		s := o.Kind
+		if o.Idx > 0 {
+			s += " " + r.valExpr(ce.T, ce.Pool[o.Idx-1])
+		}
+		if o.Val != 0 {
+			s += fmt.Sprintf(" =%d", o.Val)
+		}
+		ops = append(ops, s)
+	}
+	d := strings.Join(r.decls, "; ")
+	if d != "" {
+		d = " where " + d
+	}
+	return fmt.Sprintf("map[%s]int32%s, init %s: %s", te, d, h.Init, strings.Join(ops, "; "))
+}
+
+func report(c *core.Ctx, ce *catEntry, f failure, count int) {
+	one := *f.h
+	one.seq = 0
+	prog := renderProgram([]catEntry{*ce}, []int{1}, map[int][]*hist{1: {&one}})
+	files := prog.ReplayFiles("prog")
+	sc, _ := json.Marshal(map[string]any{"cat": ce, "hist": json.RawMessage(f.h.Raw)})
+	files["scenario.json"] = string(sc) + "\n"
+	files["expected.txt"] = fmt.Sprintf("step %d: %s\n", f.oc.step, f.oc.want)
+	files["observed.txt"] = fmt.Sprintf("step %d: %s\n", f.oc.step, f.oc.got)
+	c.Report(core.Case{Keys: f.keys,
+		Summary: fmt.Sprintf("%s -- step %d (%s): Go/spec = %s, compiled program: %s (%d histories of this key type and class differ)",
+			describe(ce, f.h), f.oc.step+1, f.h.Ops[f.oc.step].Kind, f.oc.want, f.oc.got, count),
+		Files: files})
+}
+
+// replay re-decides one recorded scenario.
+func replay(c *core.Ctx, pool *gjs.Pool, dir string) {
+	b, err := os.ReadFile(filepath.Join(dir, "scenario.json"))
+	if err != nil {
+		c.Infra(err)
+		return
+	}
+	var sc struct {
+		Cat  catEntry `json:"cat"`
+		Hist string   `json:"hist"`
+	}
+	var raw struct {
+		Cat  catEntry        `json:"cat"`
+		Hist json.RawMessage `json:"hist"`
+	}
+	if err := json.Unmarshal(b, &raw); err != nil {
+		c.Infra(err)
+		return
+	}
+	sc.Cat, sc.Hist = raw.Cat, string(raw.Hist)
+	var rec struct {
+		Fam  string            `json:"fam"`
+		Init string            `json:"init"`
+		Ops  [][]any           `json:"ops"`
+		Res  []json.RawMessage `json:"res"`
+	}
+	if err := json.Unmarshal(raw.Hist, &rec); err != nil {
+		c.Infra(err)
+		return
+	}
+	h := &hist{Ty: 1, Fam: rec.Fam, Init: rec.Init, Res: rec.Res, Raw: sc.Hist}
+	for _, o := range rec.Ops {
+		h.Ops = append(h.Ops, opT{Kind: str(o[0]), Idx: num(o[1]), Val: num(o[2])})
+	}
+	c.Set("rule", "replay of one recorded history")
+	c.Set("exhaustive", false)
+	c.Set("evaluations", 1)
+	c.Set("checker_cmd", "none (prediction taken from the replay directory)")
+	runAll(c, pool, []catEntry{sc.Cat}, map[int][]*hist{1: {h}}, 1)
+}
